@@ -433,6 +433,39 @@ def e10b(ctx):
             else:
                 ctx.proved("E10b", f.file, "SequenceFormatter.print_SequenceNode", i.test, "sub-edits chosen by structure", f"`{norm(i.test, 80)}`")
     ctx.floor("E10b", n, 1, "sub-edit branches in print_SequenceNode")
+    # the same for an edit handed to GraphtageFormatter.print explicitly (the items of a sequence arrive that way): it is printed
+    # as an edit whenever edits are wanted - a zero-cost Insert or Remove is still an insertion or a removal
+    gq = m.need_class("GraphtageFormatter")
+    g = m.method(gq, "print")
+    from ..astx import class_helpers
+    k = 0
+    for fn_ in class_helpers(m, gq, g, depth=1):
+        ps_ = [p_ for p_ in func_params(fn_.node) if p_ not in ("self", "cls", "printer")]
+        if not ps_:
+            continue
+        other = ps_[0]
+        for x in walk_no_nested(fn_.node):
+            # a bare flow of the parameter (assigned, returned, chosen by a conditional expression) - not a test or a member access
+            if not (isinstance(x, ast.Name) and x.id == other and isinstance(x.ctx, ast.Load)):
+                continue
+            par = parent(x)
+            if isinstance(par, (ast.Attribute, ast.Call, ast.Compare)) and not (isinstance(par, ast.Call) and False):
+                continue
+            facts = flatten_conditions(dominating_conditions(x))
+            if not any(pol and isinstance(t, ast.Call) and call_name(t) == "isinstance" and "Edit" == (dotted(t.args[1]) or "") for t, pol in facts):
+                continue
+            k += 1
+            cost = [t for t, pol in facts if any(isinstance(c, ast.Call) and isinstance(c.func, ast.Attribute)
+                                                  and c.func.attr in ("has_non_zero_cost", "bounds", "is_complete") for c in ast.walk(t))]
+            if cost:
+                ctx.violation("E10b", fn_.file, fn_.short, cost[0], "explicit edit chosen by structure",
+                              f"an edit handed to print() is dropped unless `{norm(cost[0], 50)}`: the Insert of a null or of an empty string "
+                              f"into a list of scalars costs 0, so `[1, 2] -> [1, null, 2]` is rendered as `[1, null, 2]` without any mark "
+                              f"and the first document cannot be read back")
+            else:
+                ctx.proved("E10b", fn_.file, fn_.short, x, "explicit edit chosen by structure",
+                           "an explicitly passed edit is used whenever edits are wanted, whatever it costs")
+    ctx.floor("E10b-explicit", k, 1, "assignments of the explicitly passed edit in GraphtageFormatter.print")
 
 
 def e10c(ctx):
